@@ -478,7 +478,52 @@ def _fold_forms(prog):
            and isinstance(s.test.comparators[0], ast.Constant) and s.test.comparators[0].value == 0
            and isinstance(s.test.ops[0], ast.Eq)]
     if len(ifs) != 1:
-        out.append(struct_ob("fold-form", qual(pc, fn), False, "no `if n == 0` parity switch", rel, fn.lineno))
+        # no parity switch in the body (the fold is written arithmetically, or delegated to a helper): decide on the expanded
+        # value of the method - one exact divmod of (draw - lo, hi - lo), its quotient's parity n, result(n=0) - lo = remainder,
+        # hi - result(n=1) = remainder, with lo the effective lower edge of the case and hi the stored upper limit
+        def is_nn(n):
+            return isinstance(n, (ast.IfExp, ast.If)) and "_non_negative" in U(n.test)
+        has_switch = any(is_nn(n) for n in ast.walk(fn))
+        for case, label in ([("orelse", "non_negative off"), ("body", "non_negative on")] if has_switch else [("orelse", "")]):
+            tag = f"[{label}]" if label else ""
+            ex = Expander(prog, pc.module, pc)
+            ex.opaque_self_attrs = {"lower", "upper", "width", "samples", "sigma", "rng", "_non_negative", "try_count", "max_tries"}
+            ex.on_if = lambda node, env, case=case: case if is_nn(node) else "skip"
+            # the stored width is what set_boundaries makes it: upper - lower of the RAW limits (read from its assignments)
+            sb_ = pc.methods.get("set_boundaries")
+            src_ = {U(s_.targets[0]): U(s_.value) for s_ in ast.walk(sb_) if isinstance(s_, ast.Assign)} if sb_ is not None else {}
+            p_ = [a.arg for a in sb_.args.args[1:]] if sb_ is not None else []
+            if len(p_) >= 2 and src_.get("self.upper") == p_[1] and src_.get("self.lower") == p_[0] \
+                    and src_.get("self.width") in (f"{p_[1]} - {p_[0]}", "self.upper - self.lower"):
+                ex.attr_overrides["self.width"] = R.sym("self.upper") - R.sym("self.lower")
+            pos = guard(lambda: ex.run(fn.body, {}))
+            if isinstance(pos, TupleV) or not hasattr(pos, "all_atoms"):
+                raise AnalysisError("fold-form: boundary_proposal does not return a single value")
+            dm = [a for a in pos.all_atoms() if a[0] == "fn" and a[1].startswith("numpy.divmod")]
+            par = [a for a in pos.all_atoms() if a[0] == "fn" and a[1] == "mod"]
+            draw = [a for a in pos.all_atoms() if a[0] == "sym" and a[1].startswith("rng.normal")]
+            if not dm or len(par) != 1 or len(draw) != 1 or len({a[2] for a in dm}) != 1:
+                raise AnalysisError(f"fold-form: boundary_proposal{tag} is neither a parity switch nor one exact divmod fold: {str(pos)[:160]}")
+            args = anf.REG.get(dm[0][2])
+            prop = R.atom(draw[0])
+            lo = prop - args[0]                       # divmod is applied to (draw - lo, width)
+            up = R.sym("self.upper")
+            okw = args[1].eq(up - lo)
+            out.append(struct_ob("fold-form", qual(pc, fn) + "[width]" + tag, okw,
+                                 f"the fold period must be upper - lower of the same box: divmod is applied to ({args[0]}, {args[1]}), i.e. "
+                                 f"lower edge {lo} and period {args[1]}, but the upper limit is self.upper", rel, fn.lineno))
+            want_lo = anf.fn_("max", R.sym("self.lower"), R.const(0)) if label == "non_negative on" else R.sym("self.lower")
+            out.append(formula_ob("fold-form", qual(pc, fn) + "[lower-edge]" + tag, lo, want_lo, rel, fn.lineno,
+                                  what="lower edge of the fold = the stored lower limit (lifted to 0 when non-negative)"))
+            rem = R.atom(("fn", "numpy.divmod#1", dm[0][2]))
+            pargs = anf.REG.get(par[0][2])
+            ok_par = pargs[0].eq(R.atom(("fn", "numpy.divmod#0", dm[0][2]))) and pargs[1].eq(R.const(2))
+            out.append(struct_ob("fold-form", qual(pc, fn) + "[parity]" + tag, ok_par,
+                                 f"parity is mod({pargs[0]}, {pargs[1]}), not quotient % 2", rel, fn.lineno))
+            out.append(formula_ob("fold-form", qual(pc, fn) + "[even]" + tag, anf.subst(pos, {par[0]: R.const(0)}) - lo, rem, rel, fn.lineno,
+                                  what="even: result - lower = (proposal - lower) % width"))
+            out.append(formula_ob("fold-form", qual(pc, fn) + "[odd]" + tag, up - anf.subst(pos, {par[0]: R.const(1)}), rem, rel, fn.lineno,
+                                  what="odd: upper - result = (proposal - lower) % width"))
         return out
     sw = ifs[0]
     def is_nn_switch(n):
